@@ -378,7 +378,7 @@ class _W:
                      f"{where}: {what} {s!r} parses to a different database: missing={missing} extra={extra} wrong-hash={diff} "
                      f"more-than-once={dups}", kind=kind, what=what)
         ctx.n_checks += 1
-        lines = [ln.rstrip(b"\r\n") for ln in s.splitlines(keepends=True)]
+        lines = [ln.rstrip(b"\r\n") for ln in s.split(b"\n")]  # physical lines end at LF only (a lone CR is data)
         want = model.expected_untouched_lines()
         ctx.check(is_subsequence(want, lines), "C16", "untouched-items-order",
                   lambda: f"{where}: untouched items {want!r} are not an in-order part of {what} lines {lines!r}", what=what)
